@@ -2,20 +2,28 @@
 C08 -- sequence expressions and sequence/aggregate functions equal the F&O list model.
 
  prove      : EPV.Props.C08 (model = spec for every function, every list, every argument;
-              odometer = cartesian product; eval = sem for every expression; algebraic laws)
- correspond : expressions are generated as ASTs, printed (a) as XPath text for the real engine
-              (elementpath.select(None, text, item=.., position=.., size=.., variables=..) with
-              XPath31Parser, XPath30Parser and, where the syntax exists, XPath2Parser) and
-              (b) in Polish notation for the Lean driver, which answers with the value of the
-              model (`eval`) and of the specification (`sem`).
-              1. boundary probes: every function x sequences (empty, singleton, long, mixed
-                 numeric, NaN, duplicates, strings, booleans) x boundary arguments
-                 {-1, 0, .5, 1, 1.5, 2.5, len-.5, len, len+.5, len+1, +-INF, NaN, +-1e30, +-2^70}
-                 and wrongly typed arguments -- compared strictly (values and error codes);
-              2. the standard equivalences, both sides evaluated by the real engine, compared
+              odometer = cartesian product; eval = sem for every expression; permitted outcomes;
+              algebraic laws)
+ correspond : expressions are generated as ASTs, printed (a) as XPath text for the real engine and
+              (b) in Polish notation for the Lean driver, which answers with the value of the model
+              (`eval`), of the specification (`sem`), the lazy value and the reachable error codes.
+              Engine routes: primary `elementpath.select(root, text, item=.., position=.., size=..,
+              variables=..)` with XPath31Parser, XPath30Parser, XPath2Parser (where the syntax exists);
+              plus one further route per case: token.evaluate / token.select / iter_select /
+              Selector / one Selector re-used with alternating contexts / lxml document / document
+              node as root / the function calls written as f#n(..), let $fn := f#n, inline
+              function, partial application, arrow.
+              1. corpus of the failing inputs of all findings;
+              2. boundary probes: every function x sequences (empty, singleton, long, mixed numeric
+                 tower, NaN, +-0, duplicates, strings, booleans, untypedAtomic, nodes) x boundary
+                 arguments in integer / decimal / double spelling, wrongly typed arguments,
+                 call-site probes (`for $a in .., $b in .. return f(S, $a, $b)`), aliasing probes;
+              3. the standard equivalences, both sides evaluated by the real engine, compared
                  with each other and with model/spec;
-              3. random nested compositions (predicate in for in predicate, quantifiers, `!`,
-                 shadowed variables) from a typed generator.
+              4. random nested compositions (predicate in for in predicate, quantifiers, `!`,
+                 shadowed variables, aggregates over the numeric tower / untyped / nodes, lifted
+                 calls, error leaves) from a typed generator;
+              5. node probes, kernel probes (rnd, roundSig28, lexDouble vs CPython).
  search     : exhaustive small-scope enumeration (all sequences of length <= 3 over {1,2} x all
               boundary arguments x every function/operator) + a fresh random stream.
 """
@@ -414,25 +422,29 @@ DOC_XML = '<r><a>1</a><b>x</b><a>2.5</a><c><a>1</a></c><b/><a>x</a><b>1</b></r>'
 _DOC = {}
 
 
-def document():
-    """the small document whose elements are the node items: (root, elements in pre-order, string values)"""
-    if not _DOC:
-        from xml.etree import ElementTree as ET
+def document(flavour: str = 'et'):
+    """the small document whose elements are the node items: (root, elements in pre-order, string values);
+    flavour 'et' = xml.etree.ElementTree (primary), 'lxml' = the same text parsed by lxml.etree"""
+    if flavour not in _DOC:
+        if flavour == 'lxml':
+            from lxml import etree as ET
+        else:
+            from xml.etree import ElementTree as ET
         root = ET.fromstring(DOC_XML)
-        nodes = list(root.iter())
-        _DOC.update(root=root, nodes=nodes, strings=[''.join(e.itertext()) for e in nodes],
-                    index={id(e): i for i, e in enumerate(nodes)})
-    return _DOC
+        nodes = list(root.iter())                 # kept alive: the lxml proxies keep their identity
+        _DOC[flavour] = dict(root=root, nodes=nodes, strings=[''.join(e.itertext()) for e in nodes],
+                             index={id(e): i for i, e in enumerate(nodes)}, tree=ET.ElementTree(root))
+    return _DOC[flavour]
 
 
 def doc_field() -> str:
     return 'doc=' + '|'.join(('.'.join(format(ord(c), 'x') for c in sv) or '-') for sv in document()['strings'])
 
 
-def atom_py(a):
+def atom_py(a, flavour: str = 'et'):
     t, v = a
     if t == 'n':
-        return document()['nodes'][v]
+        return document(flavour)['nodes'][v]
     if t == 'q':
         return Decimal(v[0]).scaleb(-v[1])
     if t == 'u':
@@ -477,15 +489,17 @@ def canon_item(x) -> str:
     if type(x).__name__ == 'UntypedAtomic':
         return 'u:' + '.'.join(format(ord(c), 'x') for c in x.value)
     idx = document()['index'].get(id(x))
+    if idx is None and 'lxml' in _DOC:
+        idx = _DOC['lxml']['index'].get(id(x))
     if idx is not None:
         return f'n:{idx}'
     return f'?{type(x).__name__}'
 
 
-def ctx_kwargs(ctx) -> dict:
+def ctx_kwargs(ctx, flavour: str = 'et') -> dict:
     item, pos, size, variables = ctx
-    return dict(item=atom_py(item), position=pos, size=size,
-                variables={f'v{k}': [atom_py(a) for a in v] for k, v in variables.items()})
+    return dict(item=atom_py(item, flavour), position=pos, size=size,
+                variables={f'v{k}': [atom_py(a, flavour) for a in v] for k, v in variables.items()})
 
 
 def canon_result(r) -> str:
@@ -519,7 +533,7 @@ def run_impl(expr_text: str, ctx, pv: str) -> str:
 
 
 # ---- the other public evaluation routes, and reuse of one token tree ------------------------
-API_ROUTES = ('evaluate', 'token-select', 'iter-select', 'selector', 'reuse')
+API_ROUTES = ('evaluate', 'token-select', 'iter-select', 'selector', 'reuse', 'lxml', 'document-root')
 _SELECTORS: dict = {}
 
 
@@ -546,6 +560,11 @@ def run_route(expr_text: str, ctx, pv: str, route: str) -> str:
         return guarded(lambda: list(elementpath.iter_select(root, expr_text, parser=cls, **ctx_kwargs(ctx))))
     if route == 'selector':
         return guarded(lambda: list(Selector(expr_text, parser=cls).iter_select(root, **ctx_kwargs(ctx))))
+    if route == 'lxml':                      # the same document built by lxml.etree, its elements as node items
+        return guarded(lambda: elementpath.select(document('lxml')['root'], expr_text, parser=cls,
+                                                  **ctx_kwargs(ctx, 'lxml')))
+    if route == 'document-root':             # an ElementTree (document node) as root instead of its root element
+        return guarded(lambda: elementpath.select(document()['tree'], expr_text, parser=cls, **ctx_kwargs(ctx)))
     if route == 'reuse':
         # ONE Selector (one token tree) per expression text, kept for the whole run and evaluated with
         # alternating dynamic contexts; the answers for the same context must not change
@@ -1561,14 +1580,21 @@ def evaluate(run: Run, cases: list[Case], stats=True, answers=None) -> list[dict
     return [assemble(c, ans, None) for c, ans in zip(cases, answers)]
 
 
+QUICK_PRIMARY = False     # quick tier: primary route under XPath31Parser and ONE of the older parser classes
+
+
 def impl_results(c: Case) -> dict:
     import zlib
     t = text(c.expr)
     pvs = parsers_for(c.expr)
-    impl = {pv: run_impl(t, c.ctx, pv) for pv in pvs}
+    h = zlib.crc32(c.line().encode())
+    primary = pvs
+    if QUICK_PRIMARY and not ALL_ROUTES and len(pvs) > 2:
+        primary = [pvs[0], pvs[1 + (h >> 8) % (len(pvs) - 1)]]
+    impl = {pv: run_impl(t, c.ctx, pv) for pv in primary}
     routes = routes_for(c.expr, pvs)
     if not ALL_ROUTES:
-        routes = [routes[zlib.crc32(c.line().encode()) % len(routes)]]
+        routes = [routes[h % len(routes)]]
     for pv, route in routes:
         impl[f'{pv}/{route}'] = run_any(c.expr, c.ctx, pv, route)
     return impl
@@ -1864,14 +1890,17 @@ def body(run: Run) -> int:
         'the driver on every aggregate that is run)']
     run.prove(['EPV.Props.C08'], ['EPV.Spec.FOSeq'])
     rng = run.rng
+    global QUICK_PRIMARY
+    QUICK_PRIMARY = run.quick
     try:
         cases = probe_cases(not run.quick, rng)
         cases += equivalence_cases(rng, not run.quick)
         cases = [c for c in cases if c is not None]
         cases += random_cases(rng, run.scale(6000, 70000), 6 if run.quick else 7)
         run.stats.rule = ('an evaluation = one expression in one dynamic context (item, position, size, variables) '
-                          'evaluated by the Lean model, the Lean specification and the real engine under every '
-                          'parser class that has the syntax (3.1, 3.0, 2.0); distinct = distinct (expression, '
+                          'evaluated by the Lean model, the Lean specification and the real engine: `elementpath.select` under '
+                          'the parser classes that have the syntax (3.1, 3.0, 2.0; the quick tier takes 3.1 and one of the '
+                          'other two per case) and one further evaluation route per case; distinct = distinct (expression, '
                           'context) with at least one operator or function')
         ds = run_cases(run, cases)
         attach(ds, {c.line(): c for c in cases})
